@@ -524,6 +524,15 @@ def enqueueFinish (deadCmds : List Cmd) (live : List TaskRow) (expiresAt : Int) 
   let cmds := deadCmds ++ (live.zip outs).map fun (r, o) => enqueueOutcomeCmd expiresAt r o
   if cmds.isEmpty then .done none else .yield [.store cmds] fun _ _ => .done none
 
+/-- the hand-off request for one enqueueable task: the task row as read (marked enqueued), the promise it belongs
+    to, and the three links a worker needs, built from the configured URL and the row's id and counter -/
+def senderReqOf (env : Env) (expiresAt : Int) (r : TaskRow) (pr : Res) : SenderReq :=
+  let tk := r.toTask
+  let p : Option Promise := match pr with
+    | .promises (row :: _) => some row.toPromise
+    | _ => none
+  { task := { tk with state := T_ENQUEUED, expiresAt := expiresAt }, promise := p, claimHref := env.cfg.url ++ "/tasks/claim/" ++ tk.id ++ "/" ++ toString tk.counter, completeHref := env.cfg.url ++ "/tasks/complete/" ++ tk.id ++ "/" ++ toString tk.counter, heartbeatHref := env.cfg.url ++ "/tasks/heartbeat/" ++ tk.id ++ "/" ++ toString tk.counter }
+
 def enqueueTasks (env : Env) (t0 : Time) : Co :=
   .yield [.store [.readEnqueueableTasks { time := t0, limit := env.cfg.taskBatchSize }]] fun _ cpls =>
     match cpls with
@@ -545,12 +554,7 @@ def enqueueTasks (env : Env) (t0 : Time) : Co :=
                 .updateTask { id := r.id, processId := none, state := T_TIMEDOUT, counter := r.counter, attempt := r.attempt, ttl := 0, expiresAt := 0, completedOn := some r.timeout, currentStates := [T_INIT], currentCounter := r.counter }
               if live.any (fun (_, pr) => match pr with | .promises _ => false | _ => true) then .panic "enqueueTasks: ReadPromise must not be nil"
               else
-              let senders : List Subm := live.map fun (r, pr) =>
-                let tk := r.toTask
-                let p : Option Promise := match pr with
-                  | .promises (row :: _) => some row.toPromise
-                  | _ => none
-                .sender { task := { tk with state := T_ENQUEUED, expiresAt := expiresAt }, promise := p, claimHref := env.cfg.url ++ "/tasks/claim/" ++ tk.id ++ "/" ++ toString tk.counter, completeHref := env.cfg.url ++ "/tasks/complete/" ++ tk.id ++ "/" ++ toString tk.counter, heartbeatHref := env.cfg.url ++ "/tasks/heartbeat/" ++ tk.id ++ "/" ++ toString tk.counter }
+              let senders : List Subm := live.map fun (r, pr) => .sender (senderReqOf env expiresAt r pr)
               if senders.isEmpty then enqueueFinish deadCmds (live.map (·.1)) expiresAt []
               else .yield senders fun _ outs => enqueueFinish deadCmds (live.map (·.1)) expiresAt outs
           | _ => .panic "enqueueTasks: malformed completion"
